@@ -146,6 +146,8 @@ class Prop(object):
         u.append(('foreign-subkeys', {}))
         for ks in ('eddsa', 'ecdsa'):
             u.append(('hashfault', {'keyset': ks}))
+        for ks in ('eddsa+ecdh', 'rsa+subs'):
+            u.append(('passtypes', {'keyset': ks}))
         u.append(('gpg', {}))
         depth = 3 if tier == 'quick' else 4
         for ks in ('eddsa+ecdh', 'rsa+subs') if tier == 'quick' else ('eddsa+ecdh', 'rsa+subs', 'dsa', 'ecdsa+ecdh'):
@@ -184,6 +186,73 @@ class Prop(object):
             if bytes(d.message) != b'decrypt me':
                 probs.append('decryption while unlocked returned other content')
         return probs
+
+    def c_passtypes(self, case):
+        """The passphrase handed over as octets in the containers a caller may hold them in (bytes, bytearray, memoryview) - to protect() and to unlock().
+        The call may refuse the type (then nothing has changed); if it goes through, it has done for EVERY component what it does for a str passphrase
+        of the same octets."""
+        import pgpy
+        from pgpy.constants import SymmetricKeyAlgorithm, HashAlgorithm
+        from mc import recips as R_
+        R_.set_s2k_count(0)
+        r = Res()
+        ks = case['keyset']
+        octets = 'octet passphrase \u00fc'.encode('utf-8')
+        kinds = {'bytes': lambda: bytes(octets), 'bytearray': lambda: bytearray(octets), 'memoryview': lambda: memoryview(bytes(octets))}
+        for kname, mkpw in kinds.items():
+            for where in ('protect', 'unlock'):
+                if case.get('only') is not None and case['only'] != [kname, where]:
+                    continue
+                r.states += 1
+                r.transitions += 2
+                probs = []
+                label = 'key set %s, passphrase given as %s to %s()' % (ks, kname, where)
+                try:
+                    key, raws = build(ks)
+                    if where == 'protect':
+                        try:
+                            key.protect(mkpw(), SymmetricKeyAlgorithm.AES256, HashAlgorithm.SHA256)
+                            refused = False
+                        except Exception:
+                            refused = True
+                        if refused:
+                            if key.is_protected:
+                                probs.append('protect() raised but the key now reports protected')
+                            else:
+                                probs += ['after the refused protect(): ' + x for x in self._sign_and_check(key, raws, r)]
+                        else:
+                            parsed = tpk.parse_keys(bytes(key))[0]
+                            bodies = [parsed['raw']['body']] + [x['raw']['body'] for x in parsed['subs']]
+                            for body, raw in zip(bodies, raws):
+                                try:
+                                    _p, got, _i = renc.unprotect_secret(body, octets)
+                                    if got != rkeys.secret_ints(raw):
+                                        probs.append('reference recovers other secret integers for %s' % raw['name'])
+                                except renc.DecryptError as e:
+                                    probs.append('component %s of the export does not open with the passphrase octets: %r' % (raw['name'], e))
+                    else:
+                        key.protect(octets.decode('utf-8'), SymmetricKeyAlgorithm.AES256, HashAlgorithm.SHA256)
+                        try:
+                            with key.unlock(mkpw()):
+                                inside = self._sign_and_check(key, raws, r)
+                            probs += ['inside the scope: ' + x for x in inside]
+                        except (pgpy.errors.PGPDecryptionError, pgpy.errors.PGPError, TypeError, AttributeError, ValueError) as e:
+                            # refused (or failed half-way): the key is locked, and the same octets as str still open all of it
+                            if key.is_unlocked:
+                                probs.append('unlock() raised %r and left the key unlocked' % (e,))
+                            try:
+                                with key.unlock(octets.decode('utf-8')):
+                                    probs += ['after the refused unlock(): ' + x for x in self._sign_and_check(key, raws, r)]
+                            except Exception as e2:
+                                probs.append('after unlock(%s) raised, the str passphrase no longer opens the key: %r' % (kname, e2))
+                except Exception as e:
+                    probs.append('raises %r' % (e,))
+                r.outcomes['passtypes:' + ('ok' if not probs else 'violation')] += 1
+                if probs:
+                    r.viol('passtypes', {'kind': 'passphrase-type', 'type': kname, 'where': where}, dict(case, only=[kname, where]), '%s: %s' % (label, '; '.join(probs[:2])))
+        r.dim('keyset', ks)
+        r.samples.append({'passphrase_containers': sorted(kinds)})
+        return r
 
     def c_hashfault(self, case):
         """One deviation of the environment while a protected key is unlocked: the k-th digest PGPy asks for is refused (every k), or every SHA-1 is -
